@@ -978,8 +978,10 @@ class LogixDriver(CIPDriver):
                 )
                 continue
 
+            # these requests are never sent on their own (they become members of a multi-service packet or the
+            # template of a fragmented request), so they must not consume connection sequence counts
             request = ReadTagRequestPacket(
-                self._sequence,
+                0,
                 tag_data["plc_tag"],
                 tag_data["elements"],
                 tag_data["tag_info"],
@@ -1150,7 +1152,7 @@ class LogixDriver(CIPDriver):
                     continue
 
                 request = WriteTagRequestPacket(
-                    self._sequence,
+                    0,  # never sent on its own, see _read_build_multi_requests
                     tag_data["plc_tag"],
                     tag_data["elements"],
                     tag_data["tag_info"],
